@@ -1,4 +1,5 @@
 //! Channels of the line protocol (DESIGN Appendix B).
+pub mod build;
 pub mod dec;
 pub mod load;
 pub mod parse;
@@ -18,6 +19,7 @@ pub fn respond(line: &str) -> String {
         "parse" => parse::parse(rest),
         "asm" => parse::asm(rest),
         "load" => load::load(rest),
+        "build" => build::build(rest),
         "loadbin" => load::loadbin(rest),
         _ => "bad-request".to_string(),
     }
